@@ -17,14 +17,14 @@ fi
 export CARGO_NET_OFFLINE=true CARGO_INCREMENTAL=0
 r0=skip; r1=skip; r2=skip; suite=""
 if [ "$ONLY" != "--check-only" ]; then
-  W=/tmp/seedws/repo; mkdir -p /tmp/seedws
+  SW=/tmp/seedws${EVW_NAME:+-$EVW_NAME}; W=$SW/repo; mkdir -p $SW
   git -C /repo worktree prune
   [ -e $W/.git ] || git -C /repo worktree add --detach $W HEAD >/dev/null 2>&1 || exit 2
   git -C $W checkout -q -- . ; git -C $W clean -fdq; git -C $W checkout -q --detach "$(git -C /repo rev-parse HEAD)"
   T=seeded_${ID}_$X
   cd $W || exit 2
   cp "$OUT/demo.rs" "tests/$T.rs"
-  export CARGO_TARGET_DIR=/tmp/seedws/target
+  export CARGO_TARGET_DIR=$SW/target
   timeout 3000 cargo test --offline --test "$T" > "$OUT/demo-without.log" 2>&1; r0=$?
   git apply "$OUT/patch.diff" || { echo "patch does not apply to /repo HEAD"; exit 2; }
   timeout 3000 cargo test --offline --test "$T" > "$OUT/demo-with.log" 2>&1; r1=$?
